@@ -18,15 +18,15 @@ PID = "C07"
 MODEL_TARGETS = ["model/MergeCases.vo", "model/ExecCases.vo"]
 HARNESS_BINS = ["handler", "exec"]
 RULE = ("handler level: a case is a list of rounds of the real TraceHandler (kind 1: three states of one instruction merged as "
-        "a+b, b+a, a+a, (a+b)+b, (a+b)+a, b+c, (a+b)+c, a+(b+c), a+nothing, (b+a)+a, (b+a)+b over ALL pairs of the 14 call / 4 canon / "
-        "3 ap states [third state random in quick, all triples in thorough]; kind 2: a trace built by an honest instruction "
+        "a+b, b+a, a+a, (a+b)+b, (a+b)+a, b+c, (a+b)+c, a+(b+c), a+nothing, (b+a)+a, (b+a)+b over pairs of the 14 call / 4 canon / "
+        "3 ap states [quick: all canon and ap pairs, a random half of the call pairs, random third state; thorough: all triples]; kind 2: a trace built by an honest instruction "
         "tree with nested par and stream folds, re-driven over (t,t), (t,nothing), (nothing,t); kind 3: two traces of one "
         "fold-free script cut where an honest execution stops, merged in both orders and re-merged with the inputs); "
         "evaluations = rounds; distinct non-trivial = cases with a round that merged two non-empty traces successfully. "
         "history level: a case is one honest history over 3-4 peers (airgen scripts with par, xor, folds, streams, canon, "
         "recursive stream folds, failing services; schedules with duplication, re-delivery, batched call results); "
         "evaluations = runs of execute_air of the history (each run with new data is followed by 4 re-delivery runs that are "
-        "not counted); distinct non-trivial = (script, number of runs that returned new data) of histories with >= 3 such runs")
+        "not counted); distinct non-trivial = distinct (script, schedule length) of histories whose script has >= 3 calls")
 PARTIAL = [
     "C07_full (every step of every honest history, the variants b, a, c, nothing, over RunExec.run) is a Definition only: "
     "it needs the approximation invariant of DESIGN appendix B (current data approximates the same full trace as the "
@@ -37,6 +37,8 @@ PARTIAL = [
     "states under arbitrarily nested par states (length <= u32::MAX), driving the handler over (t,t) and over (t,nothing) "
     "re-emits t (C07_same_trace_partial, C07_nothing_partial); traces with fold states are covered by the correspondence "
     "(kind 2 cases) only; the variants (c,b) and (c,a) with b, a of a different shape than c only by exploration",
+    "KNOWN FINDING recursive-stream-fold-catches-up: after a run in which a recursive stream fold was not the first fold over "
+    "its stream, the next run iterates the values the fold's own body appended, so re-delivery changes the trace",
     "no requests / no next peers on re-delivery is checked on the implementation (oracle) and by the lock-step of the "
     "executor model; it is not a theorem here (C05/C19 state the executor-level facts it follows from)",
 ]
@@ -44,6 +46,9 @@ ASSUMPTIONS = [
     "content ids are compared by a correct equality (ceqb_correct); the correspondence instantiates them with the CID text",
     "services are deterministic; the host follows air/README.md (keeps the returned data, feeds it back as previous data)",
 ]
+
+
+KNOWN_KEY = "recursive-stream-fold-catches-up"
 
 
 def history_profile(rng):
@@ -64,14 +69,14 @@ def gen_cases(rng, tier, escalate=False):
         c["level"] = "handler"
         cases.append(c)
     n_hist = {"quick": 500, "thorough": 12000}[tier] * (3 if escalate else 1)
-    n_model = {"quick": 4, "thorough": 60}[tier]
+    n_model = {"quick": 2, "thorough": 60}[tier]
     for k in range(n_hist):
         prof = history_profile(rng)
         c = exec_common.history_case(rng, prof, n_ops=rng.choice([8, 14, 24]), oracles=["C07"])
         c["level"] = "history"
         c["model"] = k < n_model
         if c["model"]:
-            c["ops"] = c["ops"][:30]
+            c["ops"] = c["ops"][:22]
         cases.append(c)
     return cases
 
@@ -112,4 +117,8 @@ def evaluate(cases, result, tier):
             result["distinct"].add(c["script"] + "|" + str(len(c["ops"])))
     for f in result["oracle_fail"][n0:]:
         f["case"]["level"] = "history"
-        f["key"] = None
+        d = f.get("detail") or {}
+        known = d.get("key") == "redelivery-changes-trace" and merge_common.recursive_stream_folds(f["case"].get("script", ""))
+        f["key"] = KNOWN_KEY if known else None
+        kk = "history/oracle " + str(d.get("key")) + (" (known: %s)" % KNOWN_KEY if known else "")
+        dist[kk] = dist.get(kk, 0) + 1
